@@ -280,7 +280,9 @@ func checkInner(c Case) (string, string) {
 			}
 			must(hackpadfs.WriteFullFile(b.fs, childPath(ch.Name), []byte("new"), 0o640))
 			want = append(want, ch)
+			sort.Slice(want, func(i, j int) bool { return want[i].Name < want[j].Name })
 			wantNames = append(wantNames, ch.Name)
+			sort.Strings(wantNames)
 			byName[ch.Name] = ch
 		case "remove":
 			for i, ch := range want {
@@ -417,8 +419,16 @@ func genCase(t *rapid.T, kind string) Case {
 		n = rapid.IntRange(200, 300).Draw(t, "nbig")
 	}
 	perm := rapid.Permutation(seq(n)).Draw(t, "order")
+	// name shapes: mostly e000.., sometimes names whose byte order differs from "natural" orders (upper case, leading dot,
+	// dash, space, non-ASCII, a name that is a string prefix of the next)
+	shape := rapid.SampledFrom([]string{"e%03d", "e%03d", "e%03d", ".e%03d", "E%03d", "e %03d", "\u00e9%03d", "-%03d", "e%03d.txt", "e%d"}).Draw(t, "nameshape")
+	mixed := rapid.IntRange(0, 3).Draw(t, "mixedshapes") == 0
 	for _, i := range perm {
-		c.Children = append(c.Children, Child{Name: fmt.Sprintf("e%03d", i), IsDir: rapid.IntRange(0, 2).Draw(t, "isdir") == 0, Size: rapid.IntRange(0, 9).Draw(t, "size"), Special: special(t)})
+		sh := shape
+		if mixed && i%2 == 1 {
+			sh = "E%03d"
+		}
+		c.Children = append(c.Children, Child{Name: fmt.Sprintf(sh, i), IsDir: rapid.IntRange(0, 2).Draw(t, "isdir") == 0, Size: rapid.IntRange(0, 9).Draw(t, "size"), Special: special(t)})
 	}
 	if c.Dir == "." && kind == "submem" {
 		// fine: the view's own root
